@@ -923,6 +923,13 @@ def expand(
                 subquery = parsed_source.subquery(node.alias or name)
                 subquery.comments = [f"source: {name}"]
 
+                # Keep a column list such as x AS z(p, q): it renames the source's columns
+                table_alias = node.args.get("alias")
+                if table_alias and table_alias.args.get("columns"):
+                    subquery.args["alias"].set(
+                        "columns", [c.copy() for c in table_alias.args["columns"]]
+                    )
+
                 # Continue expanding within the subquery
                 return subquery.transform(_expand, copy=False)
 
